@@ -22,7 +22,10 @@
 (*   "firstofmany"   several referencing profiles: the first one is used   *)
 (*   "noreverse"     the scoping path is not reversed                      *)
 (*   "dropdir"       the recursive call does not pass reference_direction  *)
-(*                   (the bug fixed in pywbem 0.12, docs/changes.rst)      *)
+(*                   (the bug fixed in pywbem 0.12, docs/changes.rst); NOT *)
+(*                   a regression configuration: the recursive call has no *)
+(*                   scoping parameters, so the direction cannot matter    *)
+(*                   there and TLC finds no difference (observed freedom)  *)
 (* PinnedAssert = TRUE: a malformed scoping path runs into                 *)
 (* `assert len(traversal_path) >= 2` (the code as pinned); FALSE: the      *)
 (* repaired code raises ValueError before any traversal.                   *)
